@@ -434,6 +434,14 @@ impl<T> Rc<T> {
             unsafe {
                 let val = ptr::read(&*this); // copy the contained object
 
+                // The allocation is given up without running `Drop`. Remove
+                // `this` from the adoption graph so no other `Rc` keeps a link
+                // to it, and release its link table.
+                crate::drop::unlink(&this);
+                let rcbox = this.ptr.as_ptr();
+                let links = mem::replace(&mut (*rcbox).links, MaybeUninit::uninit());
+                drop(links.assume_init());
+
                 // Indicate to Weaks that they can't be promoted by decrementing
                 // the strong count, and then remove the implicit "strong weak"
                 // pointer while also handling drop logic by just crafting a
@@ -895,6 +903,14 @@ impl<T: Clone> Rc<T> {
             unsafe {
                 let data: &mut MaybeUninit<T> = mem::transmute(Rc::get_mut_unchecked(&mut rc));
                 data.as_mut_ptr().copy_from_nonoverlapping(&**this, 1);
+
+                // The old allocation is given up without running `Drop`.
+                // Remove it from the adoption graph so no other `Rc` keeps a
+                // link to it, and release its link table.
+                crate::drop::unlink(this);
+                let rcbox = this.ptr.as_ptr();
+                let links = mem::replace(&mut (*rcbox).links, MaybeUninit::uninit());
+                drop(links.assume_init());
 
                 this.inner().dec_strong();
                 // Remove implicit strong-weak ref (no need to craft a fake
